@@ -47,6 +47,45 @@ def generate(repo):
     rej = '[' + '; '.join(str(b) for b in rejected.encode()) + ']%N'
     empty_req = 'true' if re.search(r"val\[0\] == '\\0' && \(fd->fd_flags & OPTIONAL\) == 0", src) else 'false'
     close_checked = 'true' if re.search(r'fclose\(fh\) == EOF', src) else 'false'
+    # the fwrite call of steps_write and the test of its result
+    mw = re.search(r'int\s+steps_write\(.*?\n\{(.*?)\n\}', src, re.S)
+    if not mw:
+        raise RuntimeError('step.c: steps_write not found')
+    wbody = mw.group(1)
+    calls = re.findall(r'(\w+)\s*=\s*fwrite\(([^;]*)\);', wbody)
+    if len(calls) != 1 or len(re.findall(r'\bfwrite\(', wbody)) != 1:
+        raise RuntimeError('step.c: steps_write: expected exactly one assigned fwrite call')
+    var, fargs = calls[0]
+    fargs = [a.strip() for a in re.sub(r'\s+', ' ', fargs).split(',')]
+    if len(fargs) != 4:
+        raise RuntimeError('step.c: steps_write: fwrite arguments not understood: %r' % (fargs,))
+    tested = re.search(r'if \(%s < 1\)\s*\{[^}]*error = 1;' % re.escape(var), wbody) or \
+        re.search(r'if \(%s != 1\)\s*\{[^}]*error = 1;' % re.escape(var), wbody) or \
+        re.search(r'if \(%s == 0\)\s*\{[^}]*error = 1;' % re.escape(var), wbody)
+    if not tested:
+        fwrite_check = 'Unchecked'
+    elif fargs[2] == '1' and 'buffer_get_len' in fargs[1]:
+        fwrite_check = 'WholeObject'
+    elif fargs[1] == '1' and 'buffer_get_len' in fargs[2]:
+        fwrite_check = 'ByteCount'
+    else:
+        raise RuntimeError('step.c: steps_write: fwrite size/count arguments not understood: %r' % (fargs,))
+    # action_write: is the id column compared with -i after the key=value loop (17c91c8), before steps_write?
+    ma = re.search(r'^action_write\(.*?\n\{\n(.*?)^\}\n', rs, re.M | re.S)
+    if not ma:
+        raise RuntimeError('robsd-step.c: action_write not found')
+    abody = re.sub(r'/\*.*?\*/', '', ma.group(1), flags=re.S)
+    mloop = re.search(r'for \(; argc > 0; argc--, argv\+\+\) \{\s*if \(step_set_keyval\(c->step_file, st, \*argv, c->scratch\)\)\s*return ACTION_ERROR_FATAL;\s*\}'
+                      r'(.*?)return steps_write\(', abody, re.S)
+    if not mloop:
+        raise RuntimeError('robsd-step.c: action_write: key=value loop followed by steps_write not found')
+    between = mloop.group(1).strip()
+    if between == '':
+        step_key_checked = 'false'
+    elif re.fullmatch(r'if \(step_get_field\(st, "step"\)->integer != id\) \{\s*warnx\([^;]*\);\s*return ACTION_ERROR_FATAL;\s*\}', between):
+        step_key_checked = 'true'
+    else:
+        raise RuntimeError('robsd-step.c: action_write: statements between the key=value loop and steps_write not understood: %r' % between[:200])
     out = ['(* generated from step.c / robsd-step.c by harness/t_step.py - do not edit *)',
            'From Robsd Require Import Step.StepTypes.',
            'From Coq Require Import ZArith.',
@@ -59,5 +98,11 @@ def generate(repo):
            'Definition rejected_bytes : list N := %s.' % rej,
            'Definition reject_empty_required : bool := %s.' % empty_req,
            '(* whether steps_write checks the result of fclose *)',
-           'Definition close_checked : bool := %s.' % close_checked, '']
-    return {'Gen_Step.v': '\n'.join(out)}
+           'Definition close_checked : bool := %s.' % close_checked,
+           '(* whether action_write refuses a step=... argument that changes the id given by -i *)',
+           'Definition step_key_checked : bool := %s.' % step_key_checked, '']
+    io = ['(* generated from step.c by harness/t_step.py - do not edit *)',
+          'From Robsd Require Import Step.StepIOTypes.',
+          '(* how steps_write tests the result of fwrite *)',
+          'Definition fwrite_check : wcheck := %s.' % fwrite_check, '']
+    return {'Gen_Step.v': '\n'.join(out), 'Gen_StepIO.v': '\n'.join(io)}
